@@ -683,3 +683,18 @@ Proof.
   - exact tree_cls_5.
   - exact roster_cls_4.
 Qed.
+
+(* ---- pre-images of different kinds of identifiers never coincide ---------
+   (token / tree / server / protocol pre-images start with the name space URL and
+   a kind tag; the tags differ in their first or second character) *)
+Lemma kinds_separated f (H256 : bytes -> bytes) t rid tr k n :
+  token_url t <> tree_url f H256 rid tr /\
+  token_url t <> server_url k /\
+  token_url t <> proto_url n /\
+  tree_url f H256 rid tr <> server_url k /\
+  tree_url f H256 rid tr <> proto_url n /\
+  server_url k <> proto_url n.
+Proof.
+  unfold token_url, tree_url, server_url, proto_url.
+  repeat apply conj; intros E; apply app_inv_head in E; discriminate E.
+Qed.
